@@ -217,7 +217,7 @@ func (bv *SemVerRange) ToString(b io.Writer, s px.FormatContext, g px.RDetect) {
 func (bv *SemVerRange) ToKey(b *bytes.Buffer) {
 	b.WriteByte(1)
 	b.WriteByte(HkVersionRange)
-	bv.rng.ToString(b)
+	appendKeyBytes(b, bv.rng.String())
 }
 
 func (bv *SemVerRange) PType() px.Type {
